@@ -143,6 +143,18 @@ def ev_manual(w, branch, kind='commit', author=AUTHOR):
                             sanitize(branch), 'resolved\n',
                             'manual fix on %s (conflict resolution)' % branch,
                             author, extra_parents=[w.refs()[src]])
+    elif kind == 'revert':
+        # the change is not wanted on this version: a commit that brings the
+        # tree of the integration branch back to its destination's tree (a
+        # content-null forward port, like `git merge -s ours`)
+        ver = branch.split('/')[1]
+        dst = [b for b in w.heads() if b.split('/')[0] in (
+            'development', 'stabilization', 'hotfix') and
+            b.split('/', 1)[1] == ver][0]
+        tree = w.git('rev-parse', w.refs()[dst] + '^{tree}')
+        sha = w.git('commit-tree', tree, '-m',
+                    'manual fix on %s (revert)' % branch, '-p', tip,
+                    env=w.user_env(author))
     else:
         raise ValueError(kind)
     w.set_ref(branch, sha)
